@@ -85,20 +85,22 @@ class ConcurrentTestSuite(unittest.TestSuite):
                     testtools.ThreadsafeForwardingResult(result, semaphore), i
                 )
                 reader_thread = threading.Thread(
-                    target=self._run_test, args=(test, process_result, queue)
+                    target=self._run_test, args=(test, process_result, queue, i)
                 )
-                threads[test] = reader_thread, process_result
+                # Keyed by position, not by the sub-suite: sub-suites may
+                # compare equal to one another or be unhashable.
+                threads[i] = reader_thread, process_result
                 reader_thread.start()
             while threads:
-                finished_test = queue.get()
-                threads[finished_test][0].join()
-                del threads[finished_test]
+                finished = queue.get()
+                threads[finished][0].join()
+                del threads[finished]
         except:
             for thread, process_result in threads.values():
                 process_result.stop()
             raise
 
-    def _run_test(self, test, process_result, queue):
+    def _run_test(self, test, process_result, queue, key):
         try:
             try:
                 test.run(process_result)
@@ -107,7 +109,7 @@ class ConcurrentTestSuite(unittest.TestSuite):
                 case = testtools.ErrorHolder("broken-runner", error=sys.exc_info())
                 case.run(process_result)
         finally:
-            queue.put(test)
+            queue.put(key)
 
 
 class ConcurrentStreamTestSuite:
